@@ -253,7 +253,8 @@ def run_batch(sim: Sim, tier: str, seed: int, runs: int | None = None, workers: 
     workers = workers or min(16, os.cpu_count() or 1)
     fnd = findings.load()
     sim.prepare()
-    chunk = max(1, min(sim.chunk, (n_runs + workers - 1) // workers))
+    base_chunk = getattr(sim, "chunk_thorough", sim.chunk) if tier == "thorough" else sim.chunk
+    chunk = max(1, min(base_chunk, (n_runs + workers - 1) // workers))
     jobs = [(seed, tier, s, min(s + chunk, n_runs), do_shrink) for s in range(0, n_runs, chunk)]
     tmp = tempfile.mkdtemp(prefix="verif-run-", dir="/dev/shm" if os.path.isdir("/dev/shm") else None)
     stop_path = os.path.join(tmp, "STOP")
